@@ -462,9 +462,18 @@ Fixpoint zip_s9 (k : nat) (ms is_ : list sobs9) : list nat :=
   | _, _ => [9%nat]
   end.
 
+(* boolean form of the hypotheses of the sequence totality theorem: seq_ok, L >= 3, SeqHyp *)
+Definition seq_hypb (J : inst) : bool :=
+  seq_okb J && Nat.leb 3 (iL J) &&
+  match nodes (ig J) with
+  | [] => false
+  | d :: rest => ext_eqb (nhi d) PInf && forallb (fun nd => ext_leb (Fin (nlo d)) (nhi nd)) rest
+  end.
+
 (* strict flag, history on the formulation object (add_node ..., set_depot, add_arc ...), V, L, the
-   high costs, the observations.  Tags as for the path cases; 99 = the constructor failed in the model *)
-Definition scase9 := (bool * list gop * nat * nat * list Z * list sobs9)%type.
+   high costs, whether the harness regards the instance as inside the hypotheses of the totality claim,
+   the observations.  Tags as for the path cases; 99 = the constructor failed in the model *)
+Definition scase9 := (bool * list gop * nat * nat * list Z * bool * list sobs9)%type.
 Definition sinst_of (strict : bool) (ops : list gop) (V L : nat) : result inst :=
   match seq_init strict empty_graph with
   | Err e => Err e
@@ -472,9 +481,10 @@ Definition sinst_of (strict : bool) (ops : list gop) (V L : nat) : result inst :
   end.
 Definition check_scase9 (c : scase9) : list nat :=
   match c with
-  | (strict, ops, V, L, highs, impl) =>
+  | (strict, ops, V, L, highs, hyp, impl) =>
       match sinst_of strict ops V L with
       | Err _ => [99%nat]
-      | Ok J => zip_s9 O (map observe_s9 (mf_seq_iter strict J highs)) impl
+      | Ok J => chk 8 (Bool.eqb hyp (seq_hypb J)) ++
+                zip_s9 O (map observe_s9 (mf_seq_iter strict J highs)) impl
       end
   end.
